@@ -75,6 +75,10 @@ where
     loop {
       // Poll the stream until exhausted
       let this = self.as_mut().project();
+      // nobody downstream wants further items: retire
+      if this.observer.as_ref().map_or(true, |o| o.is_finished()) {
+        break Poll::Ready(NormalReturn::new(()));
+      }
       let next = ready!(this.stream.poll_next(cx));
 
       match next {
